@@ -22,7 +22,7 @@ for line in open(sys.argv[1]):
     if ex not in (0, 1):
         continue                      # timeout / machinery failure: not a result
     res = {"applies": True, "exit": ex, "detected": ex == 1 and nv > 0, "violation_keys": keys[:4], "summary": rest.strip()[-160:], "repo_head": head, "checked_with": chk}
-    if sid in matrix and matrix[sid].get("detected") and not res["detected"]:
+    if sid in matrix and matrix[sid].get("detected") and (not res["detected"] or (matrix[sid].get("checked_with") == sid.split("-")[0] != chk)):
         continue                      # an earlier line of the same file (before strengthening) must not overwrite a later detection
     matrix[sid] = res
     mp = os.path.join(root, sid, "meta.json")
